@@ -48,6 +48,8 @@ func (n *Node) bootComponent(ctx context.Context) {
 		n.bootPolicyComp(ctx)
 	case "peersync":
 		n.bootPeersyncComp(ctx)
+	case "scriptlab":
+		n.bootScriptLab(ctx)
 	}
 }
 
